@@ -12,6 +12,47 @@ import totengine as T
 PID = "C18"
 
 
+def visitor_part(rep):
+    """spec/Visitor.tla: the generic visitor every compilation stage is built on terminates, visits a DAG in topological
+    order exactly once and never panics on it; on a cyclic dependency table it stops and `accept()` panics (the model says
+    so too: that panic is the recorded C18 finding about CTEs named like a table they read, not a new one)."""
+    import copy
+    ra = C.tlc("MC_Visitor", "MC_Visitor.cfg", "vis_dag", workers=4, timeout=900)
+    C.require_model_ok(ra, "Visitor.tla (acyclic graphs)")
+    rc = C.tlc("MC_Visitor", "MC_Visitor_cyclic.cfg", "vis_cyc", workers=4, timeout=900)
+    C.require_model_ok(rc, "Visitor.tla (cyclic tables)")
+    graphs = ra.json_payloads("REPLAY") + rc.json_payloads("REPLAY")
+    wd = C.workdir("vis")
+    cp, op = os.path.join(wd, "cases.ndjson"), os.path.join(wd, "obs.ndjson")
+    C.write_ndjson(cp, graphs)
+    C.qv(["vi-replay"], stdin_path=cp, stdout_path=op, timeout=900)
+    obs = C.read_ndjson(op)
+    recs = [{"n": o["n"], "deps": o["deps"], "steps": o["steps"] or [[0, "none"]], "iter": o["iter"], "accept": "returns" if o["accept"] == "returns" else "panic"} for o in obs]
+    # TLC's JSON reader needs a non-empty, homogeneous `deps`: the empty dependency list is written [0] and stripped by the spec
+    for x in recs:
+        x["deps"] = [d if d else [0] for d in x["deps"]]
+    tp = os.path.join(wd, "trace.ndjson")
+    C.write_ndjson(tp, recs)
+    tr, fails, _ = C.validate_trace("Trace_Visitor", "Trace_Visitor.cfg", tp, "vis_judge", timeout=1800)
+    for i, judge in fails:
+        o = obs[i - 1]
+        rep.fail(f"Visitor/{judge}/{'dag' if all(d < k + 1 for k, ds in enumerate(o['deps']) for d in ds) else 'cyclic'}", f"judge {judge} failed on the real visitor::Iterator",
+                 {"engine": "vi-replay", "graph": {"n": o["n"], "deps": o["deps"]}, "real_steps": o["steps"], "accept": o["accept"]})
+    good = next((x for x in recs if len(x["steps"]) >= 3 and x["accept"] == "returns"), None)
+    a = copy.deepcopy(good); a["steps"] = a["steps"][:-2] + [a["steps"][-1], a["steps"][-2]]
+    b = copy.deepcopy(good); b["accept"] = "panic"
+    sp = os.path.join(wd, "selftest.ndjson")
+    C.write_ndjson(sp, [a, b])
+    _, f2, _ = C.validate_trace("Trace_Visitor", "Trace_Visitor.cfg", sp, "vis_selftest")
+    if not ((1, "StepsConform") in set(f2) and (2, "AcceptConforms") in set(f2)):
+        raise C.ToolError(f"visitor binding self-test failed: {f2}")
+    return {"model_states": ra.distinct + rc.distinct, "graphs_replayed": len(obs), "acyclic": len(ra.json_payloads("REPLAY")),
+            "cyclic_tables": len(rc.json_payloads("REPLAY")), "real_next_calls_validated": sum(len(o["steps"]) for o in obs),
+            "accept_panics_on_cyclic_tables": sum(1 for o in obs if o["accept"] != "returns"),
+            "model_properties": ["Terminates", "OnceEach", "DagNeverHalts", "DagAllVisited", "DagTopological", "DagRootLast", "DagAcceptReturns", "CycleStops"],
+            "binding_selftest": {"swapped_steps_flagged": True, "forged_accept_flagged": True}, "checker_cmd": tr.cmd}
+
+
 def run(tier, t0):
     r = C.tlc("MC_Compile", "MC_Compile.cfg", "tot_cases", workers=4, timeout=1200)
     C.require_model_ok(r, "Compile.tla (case enumeration)")
@@ -88,6 +129,7 @@ def run(tier, t0):
     flagged = {json.loads("[" + b + "]")[1] for b in ts.tagged("JUDGE")}
     if flagged != {"NoPanic", "StageOrder"}:
         raise C.ToolError(f"binding self-test failed: {flagged}")
+    visitor = visitor_part(rep)
     code, viol, known = rep.finish()
     outcomes = {}
     for e in events:
@@ -102,6 +144,7 @@ def run(tier, t0):
         "exhaustive": tier == "thorough", "stage_outcomes": outcomes, "child_restarts": restarts,
         "unsupported_constructs_accepted_without_error": accepted_unsupported,
         "relational_engine_cases": rel["cases"], "binding_selftest": {"injected_panic_and_out_of_order_stage_flagged": True},
+        "visitor": visitor,
         "failures_by_key": {k: v["count"] for k, v in rep.by_key.items()}, "known_findings_reproduced": known, "checker_cmd": tr.cmd,
     }
     C.write_evidence(PID, tier, "model_checking", coverage,
